@@ -4240,6 +4240,9 @@ class Wallet(object):
             rt.txid = t['txid']
             rt.txhash = t['txhash']
             rt.locktime = t['locktime']
+            for inp, i in zip(rt.inputs, t['inputs']):
+                if i.get('sequence') is not None:
+                    inp.sequence = i['sequence']
             rt.version = t['version'].to_bytes(4, 'big')
             rt.version_int = t['version']
             rt.block_hash = t['block_hash']
